@@ -379,6 +379,10 @@ def named_paths(root, here, upd, ps_path, notes):
         try:
             mnode = root.get_path(mother)
             mprocs, mtopo = mnode.get_processes() or {}, mnode.get_topology() or {}
+            msteps = mnode.get_steps() or {}
+            if isinstance(mprocs, dict) and isinstance(msteps, dict):
+                # a daughter that names no processes inherits the mother's processes and steps
+                mprocs = dict(mprocs, **msteps)
         except Exception:
             mprocs, mtopo = {}, {}
         for d in _seq(dv.get('daughters'))[:2]:
